@@ -1,6 +1,7 @@
 package main
 
 import (
+	"go/types"
 	"strings"
 
 	"golang.org/x/tools/go/ssa"
@@ -248,8 +249,7 @@ func init() {
 			eq = x
 		}
 		o.Require(eq != nil, "matcher-eqfunc-fn", "the matcher set comparison function cannot be resolved", ef)
-		c := o.One(o.E.Calls(eq, "proto.Equal"), "matcher-eq", "matcher sets must be compared with proto.Equal", eq)
-		o.Check(o.E.Arg(c, 0) == "p0" && o.E.Arg(c, 1) == "p1", "matcher-eq-args", "matcher sets must be compared pairwise", c)
+		protoEqualOrFieldwise(o, eq, "matcher-eq", 0)
 		o.MinSites(7)
 	})
 
@@ -504,4 +504,54 @@ func regexpQuote(s string) string {
 		b.WriteRune(r)
 	}
 	return b.String()
+}
+
+// protoEqualOrFieldwise: eq(p0, p1 *T) decides equality of two messages either with proto.Equal(p0, p1) or field
+// by field; in the second form every exported field of T must take part: scalar fields through p0.F == p1.F on
+// every path that answers true, repeated message fields through slices.EqualFunc(p0.F, p1.F, f) with f checked
+// the same way.
+func protoEqualOrFieldwise(o *Ob, eq *ssa.Function, key string, depth int) {
+	e := o.E
+	if cs := e.Calls(eq, "proto.Equal"); len(cs) > 0 {
+		c := o.One(cs, key, "messages must be compared with one proto.Equal", eq)
+		o.Check(e.Arg(c, 0) == "p0" && e.Arg(c, 1) == "p1", key+"-args", "matcher sets must be compared pairwise", c)
+		return
+	}
+	if !o.Check(len(eq.Params) == 2 && depth < 3, key, "matcher sets must be compared with proto.Equal or field by field", fnFirst(eq)) {
+		return
+	}
+	pt, ok := eq.Params[0].Type().Underlying().(*types.Pointer)
+	if !o.Check(ok, key, "the comparison function does not take message pointers", fnFirst(eq)) {
+		return
+	}
+	st, ok := pt.Elem().Underlying().(*types.Struct)
+	if !o.Check(ok, key, "the comparison function does not take message pointers", fnFirst(eq)) {
+		return
+	}
+	F := [][]string{Vals("false")}
+	for i := 0; i < st.NumFields(); i++ {
+		f := st.Field(i)
+		if !f.Exported() || strings.HasPrefix(f.Name(), "XXX_") {
+			continue
+		}
+		if sl, isSl := f.Type().Underlying().(*types.Slice); isSl {
+			if _, isP := sl.Elem().Underlying().(*types.Pointer); isP {
+				var ef ssa.CallInstruction
+				for _, c := range e.Calls(eq, "slices.EqualFunc") {
+					if e.Arg(c, 0) == "p0."+f.Name() && e.Arg(c, 1) == "p1."+f.Name() {
+						ef = c
+					}
+				}
+				if !o.Check(ef != nil, key+"|"+f.Name(), "field "+f.Name()+" does not take part in the comparison (two silences differing only there would count as the same)", fnFirst(eq)) {
+					continue
+				}
+				o.Table(eq, key+"|"+f.Name(), []Row{{Name: f.Name() + " differs", Assume: A(L(e.X(eq, ef.(*ssa.Call)), false)), Ret: F}})
+				if inner := e.FuncValue(ef.Common().Args[2]); o.Check(inner != nil, key+"|"+f.Name()+"-fn", "the element comparison cannot be resolved", ef) {
+					protoEqualOrFieldwise(o, inner, key+"|"+f.Name(), depth+1)
+				}
+				continue
+			}
+		}
+		o.Table(eq, key+"|"+f.Name(), []Row{{Name: f.Name() + " differs", Assume: A(L("(p0."+f.Name()+" == p1."+f.Name()+")", false)), Ret: F}})
+	}
 }
